@@ -185,3 +185,43 @@ def helper_axes_fp(vc):
     vc.cover('reachable')
     vc.ensure('C03/get_fs/fp/exactly-nchans-entries-whatever-the-rounding', And(fs.ok, eq(fs.value.shape[0], n)))
     vc.ensure('C03/get_ts/fp/exactly-one-entry-per-integration-whatever-the-rounding', And(ts.ok, eq(ts.value.shape[0], T)))
+
+
+@contract('C03', 'derived_frames_keep_the_waterfall_consistent', functions=['setigen.slice:get_slice', 'setigen.dedrift:dedrift', FR + '.from_data', FR + '.check_waterfall'])
+def derived_frames(vc):
+    """Slices and de-drifted frames of a frame that carries a Waterfall (loaded from a file, or after get_waterfall): the derived frame gets its
+    own copy of the Waterfall, and the name the file would be written with (header source_name) is still the frame's source name - the class
+    invariant `waterfall is None or waterfall.header['source_name'] == source_name`, established by the load path (round-trip contract) and
+    preserved here."""
+    from . import c17 as C17
+    route = ('slice', 'dedrift')[vc.choose(2, 'route')]
+    asc = bool(vc.choose(2, 'ascending'))
+    f, p = frame_obj(vc, asc)
+    F = f.fields
+    F['source_name'] = 'SRC'
+    install_blimpy(vc, Int('sample_T'), Int('sample_n'))
+    w = waterfall_record(vc, 'parent', None, None)
+    w.fields['header']['source_name'] = 'SRC'
+    F['waterfall'] = w
+    if route == 'slice':
+        l, r = Int('l'), Int('r')
+        vc.assume(And(l >= 0, l < r, r <= p['n']))
+        out = vc.call('setigen.slice:get_slice', f, l, r)
+    else:
+        d = Real('drift_rate')
+        nonneg = bool(vc.choose(2, 'drift>=0'))
+        vc.assume(d >= 0 if nonneg else d < 0)
+        i, j = fresh_idx('i', 'j')
+        spec = C17.DedriftLoop(vc, p, d, i, j)
+        spec.dsign_nonneg = nonneg
+        vc.interp.loop_specs[('setigen.dedrift:dedrift', 0)] = spec
+        out = vc.call('setigen.dedrift:dedrift', f, d)
+    vc.cover('reachable')
+    if not out.ok:
+        vc.ensure(f'C03/derived/{route}/exc/only-the-documented-ValueError', route == 'dedrift' and out.exc == 'ValueError')
+        return
+    R = out.value.fields
+    rw = R['waterfall']
+    vc.ensure(f'C03/derived/{route}/post/own-copy-of-the-waterfall', And(rw is not None, rw is not w, rw.fields['header'] is not w.fields['header'] if rw is not None else False))
+    vc.ensure(f'C03/derived/{route}/post/file-name-card-is-still-the-frame-source-name', And(R['source_name'] == 'SRC', rw is not None and rw.fields['header']['source_name'] == 'SRC',
+                                                                                          w.fields['header']['source_name'] == 'SRC'))
